@@ -57,6 +57,19 @@ CHECKS += [
              "computes it; the comparator accepts the exact minimum for |F| or for 2^bits (the code divides by 2^MODULUS_BIT_SIZE; they differ only in a "
              "thin band next to infeasibility). Brakedown's sparse encoder is checked for linearity and length on the implementation only."},
 ]
+CHECKS += [
+    {"property_id": "C04",
+     "text": "Coq theorems (Marlin model): committer and prover refuse a polynomial whose degree exceeds its declared bound, a bound the key was not "
+             "trimmed for, a bound above the maximum degree, and a degree above the supported degree; trim publishes shift elements g*beta^(D-d) for "
+             "exactly the sorted de-duplicated enforced bounds; a commitment made under d' and presented under d is accepted exactly when "
+             "(g*beta^(D-d) - g*beta^(D-d'))*v*xi'*h = 0; a bound label without its shifted part aborts, an unknown bound is an error; with the right "
+             "label the honest proof is accepted (C01_marlin_complete). Correspondence: extracted Marlin model vs library on honest bounded/hiding "
+             "transcripts, out-of-domain commits (error class compared), relabelled / dropped / swapped degree-bound parts (decision compared).",
+     "note": COMMON_NOTE + " Sonic and IPA: same generated scenarios (relabel / drop / swap / out-of-domain requests), judged by implementation-level "
+             "oracles with explicit side conditions (non-constant polynomial, non-zero value, point not a small root of unity, bound below the "
+             "maximum) - supporting search, not proof, until their models land. The 'accepted only if degree <= d' direction is the AGM statement of "
+             "C03 for the shifted commitment and is not proved in general (DESIGN.md section 6)."},
+]
 _PENDING = "check not built yet in this round (model and correspondence under construction; see DESIGN.md section 7)"
 _CLAIMED = {c["property_id"] for c in CHECKS}
 NOT_APPLICABLE = [{"property_id": "C%02d" % i, "reason": _PENDING} for i in range(1, 20) if "C%02d" % i not in _CLAIMED]
